@@ -1,6 +1,357 @@
 package main
 
-// dumpfile <file>: print the bytes of a written .zap file together with the
-// decoded external blobs (FST, roaring) for the independent Lean decoder (C09).
-// STUB: replaced by the C09 implementation.
-func (e *Exec) doDumpFile(c *Cmd) string { return "unimplemented" }
+// dumpfile <file> [hexmax=<n>]: print the bytes of a written .zap file together
+// with the decoded EXTERNAL-library structures found in it (vellum FSTs,
+// roaring / roaring64 bitmaps, opaque vector-engine blobs) for the independent
+// Lean decoder of the documented v16 layout (property C09, ZapModel/Layout.lean).
+//
+// Observation (one line):
+//
+//	file=<hex of all bytes> blobs=<blob>;<blob>;...        (blobs=- if none)
+//	blob = <offset>:<len>:<kind>:<payload>
+//	  fst   payload = <keyhex>=<value>,...  keys in FST order, empty key ".", empty FST "-"
+//	  r32   payload = ascending uint32 list joined by "," or "-"
+//	  r64   payload = ascending uint64 list joined by "," or "-"
+//	  faiss payload = "-"
+//	toolarge len=<n>                                        (file longer than hexmax)
+//
+// <offset>/<len> delimit the library's own bytes (after any length prefix).
+//
+// The harness only *offers* blobs: the Lean side recomputes every offset and
+// length from the file bytes and looks the blob up by (offset, len, kind); a
+// miss or a disagreement is a failure.  So nothing here can steer the result:
+// locating more blobs than needed is harmless, locating fewer is a mismatch.
+// Blobs are located twice, by a minimal walk of the file with encoding/binary
+// and through the exported zapx API (Open / Fields / DictAddr / ThesaurusAddr);
+// duplicates are merged.
+
+import (
+	"bytes"
+	"encoding/binary"
+	"fmt"
+	"os"
+	"sort"
+	"strconv"
+	"strings"
+
+	"github.com/RoaringBitmap/roaring/v2"
+	"github.com/RoaringBitmap/roaring/v2/roaring64"
+	"github.com/blevesearch/vellum"
+	zap "github.com/blevesearch/zapx/v16"
+)
+
+type dumpBlob struct {
+	off, n uint64
+	kind   string
+	pay    string
+}
+
+type dumper struct {
+	mem   []byte
+	seen  map[string]bool
+	blobs []dumpBlob
+}
+
+// uv reads a uvarint at pos; ok=false when it does not fit in the file.
+func (d *dumper) uv(pos uint64) (v uint64, next uint64, ok bool) {
+	if pos >= uint64(len(d.mem)) {
+		return 0, pos, false
+	}
+	v, n := binary.Uvarint(d.mem[pos:])
+	if n <= 0 {
+		return 0, pos, false
+	}
+	return v, pos + uint64(n), true
+}
+
+func (d *dumper) span(off, n uint64) ([]byte, bool) {
+	end := off + n
+	if end < off || end > uint64(len(d.mem)) {
+		return nil, false
+	}
+	return d.mem[off:end], true
+}
+
+func (d *dumper) add(off, n uint64, kind, pay string) bool {
+	key := fmt.Sprintf("%d:%d:%s", off, n, kind)
+	if d.seen[key] {
+		return false
+	}
+	d.seen[key] = true
+	d.blobs = append(d.blobs, dumpBlob{off, n, kind, pay})
+	return true
+}
+
+// addFST decodes the vellum FST at [off, off+n) with the real library and
+// returns its (key, value) pairs.
+func (d *dumper) addFST(off, n uint64) (vals []uint64, ok bool) {
+	buf, ok := d.span(off, n)
+	if !ok || n == 0 {
+		return nil, false
+	}
+	fst, err := vellum.Load(buf)
+	if err != nil {
+		return nil, false
+	}
+	defer fst.Close()
+	var parts []string
+	itr, err := fst.Iterator(nil, nil)
+	for err == nil {
+		k, v := itr.Current()
+		parts = append(parts, hx(k)+"="+strconv.FormatUint(v, 10))
+		vals = append(vals, v)
+		err = itr.Next()
+	}
+	if err != vellum.ErrIteratorDone {
+		return nil, false
+	}
+	pay := "-"
+	if len(parts) > 0 {
+		pay = strings.Join(parts, ",")
+	}
+	d.add(off, n, "fst", pay)
+	return vals, true
+}
+
+func (d *dumper) addR32(off, n uint64) {
+	buf, ok := d.span(off, n)
+	if !ok || n == 0 {
+		return
+	}
+	bm := roaring.New()
+	// FromBuffer aliases buf; the bitmap is only read before mem goes away
+	if _, err := bm.FromBuffer(buf); err != nil {
+		return
+	}
+	d.add(off, n, "r32", bmList(bm))
+}
+
+func (d *dumper) addR64(off, n uint64) {
+	buf, ok := d.span(off, n)
+	if !ok || n == 0 {
+		return
+	}
+	bm := roaring64.New()
+	if _, err := bm.ReadFrom(bytes.NewReader(buf)); err != nil {
+		return
+	}
+	d.add(off, n, "r64", u64List(bm.ToArray(), ","))
+}
+
+// dictAt: at a dictionary address: uvarint length + vellum; every FST value
+// in the general encoding (top two bits 00) is the offset of a postings
+// record: uvarint, uvarint, uvarint roaringLen, roaring bytes.
+func (d *dumper) dictAt(loc uint64) {
+	n, p, ok := d.uv(loc)
+	if !ok {
+		return
+	}
+	vals, ok := d.addFST(p, n)
+	if !ok {
+		return
+	}
+	for _, v := range vals {
+		if v>>62 != 0 {
+			continue
+		}
+		q, ok := d.skip2(v)
+		if !ok {
+			continue
+		}
+		if rl, q2, ok := d.uv(q); ok {
+			d.addR32(q2, rl)
+		}
+	}
+}
+
+// thesAt: at a thesaurus address: uvarint length + vellum; every value is the
+// offset of: uvarint length + roaring64 bytes.
+func (d *dumper) thesAt(loc uint64) {
+	n, p, ok := d.uv(loc)
+	if !ok {
+		return
+	}
+	vals, ok := d.addFST(p, n)
+	if !ok {
+		return
+	}
+	for _, v := range vals {
+		rl, q, ok := d.uv(v)
+		if ok {
+			d.addR64(q, rl)
+		}
+	}
+}
+
+// skip2 skips the two doc-value offsets that open every section record.
+func (d *dumper) skip2(pos uint64) (uint64, bool) {
+	ok := true
+	for i := 0; i < 2 && ok; i++ {
+		_, pos, ok = d.uv(pos)
+	}
+	return pos, ok
+}
+
+// vecAt: vector section record: two uvarints, uvarint optimisation type,
+// uvarint numVecs, numVecs x (varint vecID, uvarint docID), uvarint
+// indexSize, index bytes (opaque).
+func (d *dumper) vecAt(addr uint64) {
+	pos, ok := d.skip2(addr)
+	if !ok {
+		return
+	}
+	if _, pos, ok = d.uv(pos); !ok {
+		return
+	}
+	var nv uint64
+	if nv, pos, ok = d.uv(pos); !ok || nv > uint64(len(d.mem)) {
+		return
+	}
+	for i := uint64(0); i < nv; i++ {
+		if _, pos, ok = d.uv(pos); !ok { // a varint has the same framing as a uvarint
+			return
+		}
+		if _, pos, ok = d.uv(pos); !ok {
+			return
+		}
+	}
+	var sz uint64
+	if sz, pos, ok = d.uv(pos); !ok {
+		return
+	}
+	if _, ok := d.span(pos, sz); ok {
+		d.add(pos, sz, "faiss", "-")
+	}
+}
+
+// walk: footer -> sections index -> field records -> section records.
+func (d *dumper) walk() {
+	n := uint64(len(d.mem))
+	if n < zap.FooterSize {
+		return
+	}
+	foot := d.mem[n-zap.FooterSize:]
+	sectionsIndex := binary.BigEndian.Uint64(foot[24:32])
+	nf, pos, ok := d.uv(sectionsIndex)
+	if !ok || nf > n {
+		return
+	}
+	for i := uint64(0); i < nf; i++ {
+		ab, ok := d.span(pos+8*i, 8)
+		if !ok {
+			return
+		}
+		d.fieldAt(binary.BigEndian.Uint64(ab))
+	}
+}
+
+func (d *dumper) fieldAt(addr uint64) {
+	nl, pos, ok := d.uv(addr)
+	if !ok {
+		return
+	}
+	if _, ok = d.span(pos, nl); !ok {
+		return
+	}
+	pos += nl
+	ns, pos, ok := d.uv(pos)
+	if !ok || ns > uint64(len(d.mem)) {
+		return
+	}
+	for j := uint64(0); j < ns; j++ {
+		rec, ok := d.span(pos+10*j, 10)
+		if !ok {
+			return
+		}
+		typ := binary.BigEndian.Uint16(rec[0:2])
+		sa := binary.BigEndian.Uint64(rec[2:10])
+		if sa == 0 {
+			continue
+		}
+		switch typ {
+		case 0: // inverted text index: dvStart, dvEnd, dictLoc
+			if p, ok := d.skip2(sa); ok {
+				if loc, _, ok := d.uv(p); ok {
+					d.dictAt(loc)
+				}
+			}
+		case 1: // vector index
+			d.vecAt(sa)
+		case 2: // synonym index: 2 x not-uninverted, thesLoc
+			if p, ok := d.skip2(sa); ok {
+				if loc, _, ok := d.uv(p); ok {
+					d.thesAt(loc)
+				}
+			}
+		}
+	}
+}
+
+// viaAPI: the same starting points as the zapx reader sees them.
+func (d *dumper) viaAPI(path string) {
+	defer func() { _ = recover() }()
+	sg, err := (&zap.ZapPlugin{}).Open(path)
+	if err != nil {
+		return
+	}
+	defer sg.Close()
+	zs, ok := sg.(*zap.Segment)
+	if !ok || !bytes.Equal(zs.Data(), d.mem) {
+		return
+	}
+	for _, f := range zs.Fields() {
+		func() {
+			defer func() { _ = recover() }()
+			if a, err := zs.DictAddr(f); err == nil && (a > 0 || zs.NumDocs() == 0) {
+				d.dictAt(a)
+			}
+		}()
+		func() {
+			defer func() { _ = recover() }()
+			if a, err := zs.ThesaurusAddr(f); err == nil {
+				d.thesAt(a)
+			}
+		}()
+	}
+}
+
+func (e *Exec) doDumpFile(c *Cmd) string {
+	if len(c.Pos) < 1 {
+		return "scripterror:dumpfile-needs-file"
+	}
+	path := e.path(c.Pos[0])
+	data, err := os.ReadFile(path)
+	if err != nil {
+		return "err:other"
+	}
+	if len(data) > c.num("hexmax", 200000) {
+		return fmt.Sprintf("toolarge len=%d", len(data))
+	}
+	d := &dumper{mem: data, seen: map[string]bool{}}
+	func() {
+		defer func() { _ = recover() }()
+		d.walk()
+	}()
+	d.viaAPI(path)
+	sort.SliceStable(d.blobs, func(i, j int) bool {
+		if d.blobs[i].off != d.blobs[j].off {
+			return d.blobs[i].off < d.blobs[j].off
+		}
+		return d.blobs[i].kind < d.blobs[j].kind
+	})
+	var sb strings.Builder
+	sb.WriteString("file=")
+	sb.WriteString(hx(data))
+	sb.WriteString(" blobs=")
+	if len(d.blobs) == 0 {
+		sb.WriteString("-")
+	}
+	for i, b := range d.blobs {
+		if i > 0 {
+			sb.WriteByte(';')
+		}
+		fmt.Fprintf(&sb, "%d:%d:%s:%s", b.off, b.n, b.kind, b.pay)
+	}
+	e.stat("dumpfile")
+	return sb.String()
+}
